@@ -12,7 +12,8 @@ from .models import model, ret_ty, as_str
 HARNESS = 'pipe-harness'
 PIPE_RASN = 'pipe_harness::pipe_rasn'
 PIPE_TS = 'pipe_harness::pipe_ts'
-ROOTS = [PIPE_RASN, PIPE_TS]
+RENDER = 'pipe_harness::render'
+ROOTS = [PIPE_RASN, PIPE_TS, RENDER]
 DEFAULT_ANN = '#[derive(AsnType, Debug, Clone, Decode, Encode, PartialEq, Eq, Hash)]'
 
 _INSTALLED = [False]
@@ -109,8 +110,11 @@ def subst_ints(ex, v, sub, cnt):
                 k = p.kind(flds[i]['ty'])
                 if k[0] == 'int':
                     s = sub[x]
-                    if s.size() != k[1]:
+                    if s.size() < k[1]:
                         raise Unsupported(f"placeholder {x} in a {k[1]}-bit field")
+                    if s.size() > k[1]:
+                        # a narrower field (e.g. a u64 tag number): the low bits; the harness constrains the variable to the field's range
+                        s = z3.Extract(k[1] - 1, 0, s)
                     v.fields[i] = s
                     cnt[0] += 1
                     continue
@@ -146,7 +150,13 @@ class Pipe:
         self.fn_rasn = prog.find(PIPE_RASN)
         self.fn_ts = prog.find(PIPE_TS)
         self.cfg_ty = prog.inst[self.fn_rasn]['locals'][1]
+        self.fn_render = prog.find(RENDER)
         install()
+
+    def render(self, ex, err_value, source):
+        """(Display text, contextualize text) of a CompilerError value, both from the real code"""
+        r = ex.force(ex.call(self.fn_render, [Ref(Cell(err_value)), StrRef([ord(c) for c in source])]))
+        return r.fields[0], r.fields[1]
 
     def mkconfig(self, ex, config=None):
         config = config or {}
